@@ -4,17 +4,24 @@ Theorems: coq/C09/Properties_C09.v.
   Part 1 (about the shared reference interpreter coq/Lang): every mutation form on a const entry is
   refused with the state unchanged; const globals / locals / statics keep their entry through every
   evaluation (generic state-relation induction).
-  Part 2 (coq/C09/ConstPtr.v, a machine for pointers and references with one const test per executor):
-  under the policy that makes all 31 tests const slots are immutable, const pointers are never
-  re-seated, the address of a const object needs a pointer to const; every test is necessary; the
-  13 x 12 matrix of the property is refused cell by cell. The policy of the current code (`mech`, after the
-  repairs c8a1652..a842ca6) makes 22 of the 31 tests: positive theorems for the nine repaired ones, `_refuted`
-  theorems for the nine still missing, confirmed here on the real binary and recorded as known findings.
+  Part 2 (coq/C09/ConstPtr.v, a machine for pointers, references and array parameters with one const test per
+  executor): handles are derived from objects and from other handles, locally or as the parameter of a further callee
+  (derivation chains across call boundaries). Under the policy that makes all 46 tests const slots are immutable,
+  const pointers / references keep their referent, no store is ever carried out through a const view or a handle
+  derived from something const (ghost flag), the address of a const object needs a pointer to const; every test is
+  necessary; the 13 x 12 matrix of the property and all derivation chains of up to 3 links (references, pointers;
+  array parameters up to 4) are refused cell by cell, chains from a const object for ANY number of links.
+  The policy of the current code (`mech`) makes 29 of the 46 tests: `_refuted` theorems for the 17 missing ones,
+  confirmed here on the real binary and recorded as known findings.
 Tie (every run, against /repo's current sources built by common.build_impl):
   * the full matrix as hand-written Cb templates (gen_c09.cell), const version and control twin,
     against the extracted verdicts of spec and mech;
   * the same cells and one witness per check site rendered generically from the Coq scripts;
-  * random scripts of the machine (a stream that stays off the known holes: main = spec = mech; a free
+  * every derivation chain (object kind x links local/parameter x const/non-const x final store form), object local and
+    global, full transcript against spec and mech;
+  * template cells for object kinds / paths outside the machine (strings, floats, 2-D arrays, nested members, methods,
+    reference-returning functions, double pointers ...), const version and control twin;
+  * random scripts of the machine incl. callees (a stream that stays off the known holes: main = spec = mech; a free
     stream: main = mech, or = spec when a hole was repaired);
   * random CbCore programs around const objects against the extracted Ref (langrun.differential).
 """
@@ -33,24 +40,31 @@ LEVEL = "proof"
 META = {
     "category": "proof",
     "technique": "Coq: generic state-relation induction over the shared reference interpreter (const entries immutable for every program/fuel) + "
-                 "invariant proof on a pointer/reference machine with one const test per executor (sufficiency, necessity of each test, exhaustive "
-                 "13x12 matrix) + extracted-model differential runs against main",
+                 "invariant proof on a pointer/reference/array-parameter machine with one const test per executor and handles derived from handles "
+                 "across call boundaries (sufficiency incl. a ghost 'no store through a const view', necessity of each test, exhaustive 13x12 matrix, "
+                 "exhaustive derivation chains up to depth 3 and any-depth induction) + extracted-model differential runs against main",
     "text": "Machine-checked for all programs, states and fuels of the reference interpreter coq/Lang: a store to a const entry (=, op=, ++/--, element "
             "store) fails with the const error and leaves the state unchanged, and every const global, local and static is literally the same entry "
-            "after any expression or statement. Pointers and references are a separate Gallina machine (objects with const flags, pointers with "
-            "pointee-const / pointer-const flags, 31 check sites mirroring the executors of the implementation): with every test in place const "
-            "slots never change, `T* const` pointers are never re-seated and the address of a const object is only given to pointers to const, for "
-            "every script; each test is shown necessary; all expressible cells of the object-kind x mutation-path matrix are refused. The policy of "
-            "the current code (after six repairs found by this check) makes 22 of the 31 tests: 102 of 111 matrix cells are refused (proved for the model, "
-            "confirmed on main); the 9 missing tests are refuted with witnesses. On every run the matrix "
-            "(hand-written Cb templates with a control twin per cell), one witness per check site, random machine scripts and random CbCore programs "
-            "are executed on /repo's main and compared with the extracted models; the missing tests are reported as known findings.",
-    "note": "Trusted: Coq kernel incl. vm_compute (finite sweeps: 156 cells, 31 sites), no axioms (Print Assumptions closed); extraction (ExtrOcamlBasic, "
-            "ExtrOcamlString) + OCaml drivers (lang_driver, c09_driver); the machine ConstPtr.v and its `mech` policy are hand-written from the C++ "
-            "(site list in ConstPtr.v); the tie is differential testing. Not modelled: double pointers, const strings, const struct arrays, "
-            "function-pointer and interface values, const-ness of temporaries; const parameters only through the matrix templates.",
+            "after any expression or statement. Pointers, references and array parameters are a separate Gallina machine (objects with const flags, "
+            "handles with declared const / pointer-const flags, derived from objects or from other handles by local declaration, assignment or as the "
+            "parameter of a further callee; 46 check sites mirroring the executors of the implementation): with every test in place const slots never "
+            "change, `T* const` pointers and references keep their referent, no store is carried out through a const view or through a handle derived "
+            "- over any number of copies, re-bindings and calls - from something const, and the address of a const object is only given to pointers "
+            "to const, for every script; each test is shown necessary; all expressible cells of the object-kind x mutation-path matrix and all "
+            "derivation chains of 1..3 links (x const/non-const x local/parameter x final store form; array parameters 1..4) are refused exactly "
+            "when the object or any link is const, and chains from a const object are refused at any depth. The policy of the current code makes 29 "
+            "of the 46 tests (proved for the model, confirmed on main); the 17 missing tests are refuted with witnesses. On every run the matrix "
+            "(hand-written Cb templates with a control twin per cell), one witness per check site, every derivation chain, template cells outside "
+            "the machine, random machine scripts with callees and random CbCore programs are executed on /repo's main and compared with the "
+            "extracted models; the missing tests are reported as known findings.",
+    "note": "Trusted: Coq kernel incl. vm_compute (finite sweeps: 156 cells, 46 sites, ~6000 chains), no axioms (Print Assumptions closed); extraction "
+            "(ExtrOcamlBasic, ExtrOcamlString) + OCaml drivers (lang_driver, c09_driver); the machine ConstPtr.v and its `mech` policy are "
+            "hand-written from the C++ (site list in ConstPtr.v); the tie is differential testing. Not modelled (template cells only): strings, "
+            "floats, 2-D arrays, nested / array / string members, methods, reference-returning functions, double pointers; the history on which "
+            "`r.m = v` through a reference to a const struct depends is modelled for two histories only (nothing read / read through this reference).",
 }
 
+CH_CHAINS = 4000
 MAIN2MODEL = {"rejected": "rejected", "accepted-changed": "changed", "accepted-unchanged": "unchanged"}
 
 
@@ -76,6 +90,19 @@ def model_cmd(sub, lines=None):
 
 
 OBS = {"arg": None}     # the policy observed on the implementation's site witnesses (set by run())
+ERRS = collections.Counter()     # first error line of every implementation run that ended with an error (which guards fired)
+
+
+def note_error(rc, err):
+    if rc == 0:
+        return
+    ls = [l for l in err.split("\n") if l.strip()]
+    for l in ([l for l in ls if l.startswith("Error:")] + [l for l in ls if "Cannot" in l] + ls):
+        if l:
+            import re
+            ERRS[re.sub(r"'[^']*'", "'_'", re.sub(r"\b[opr]+\d+(\.m\d+)?\b|\bcf?\d+\b", "_", l.strip()))[:110]] += 1
+            return
+    ERRS["(rc=%d, no message)" % rc] += 1
 
 
 def model_cmd_args(args, lines):
@@ -105,40 +132,53 @@ def divergence_site(r):
     return "MemberIncDec"
 
 
-def judge_script(r, out):
+def judge_script(r, out, plan):
     """-> (class, detail): ok | hole:<site> | fixed:<site> | mismatch | skip"""
-    if "error" in r or r["free"][0].startswith("stuck") or r["spec"][0].startswith("stuck") or r["mech"][0].startswith("stuck"):
+    if "error" in r or plan is None or r["free"][0].startswith("stuck") or r["spec"][0].startswith("stuck") or r["mech"][0].startswith("stuck"):
         return "skip", "ill-formed script"
-    es = gen_c09.expected_transcript(r["spec"], r["init"])
-    em = gen_c09.expected_transcript(r["mech"], r["init"])
+    es = gen_c09.expected_transcript(r["spec"], r["init"], plan)
+    em = gen_c09.expected_transcript(r["mech"], r["init"], plan)
     rc, o, e = out
     got = (o, rc != 0)
     if rc not in (0, 1):
         return "mismatch", "implementation ended with status %d" % rc
     site = divergence_site(r)
+    if got[1] and got in (es, em) and "const" not in e.lower():
+        # every const guard of the implementation names the reason; a run that stops where a refusal is due but for another
+        # reason (unsupported construct, type error, crash message) says nothing about the guard
+        return "mismatch", "main stops where a refusal is due, but its message does not mention const: %s" % (e.strip().split("\n")[-1][:160])
     if es == em:
         return ("ok", "") if got == es else ("mismatch", "spec and mech agree, main differs")
     if got == em:
         return "hole:" + site, ""
     if got == es:
         return "fixed:" + site, ""
-    if "obs" in r and got == gen_c09.expected_transcript(r["obs"], r["init"]):
+    if "obs" in r and got == gen_c09.expected_transcript(r["obs"], r["init"], plan):
         # the machine under the tests actually observed on this binary (some recorded holes repaired, others not)
         return "fixed:" + site, ""
     return "mismatch", "main equals neither mech nor spec"
 
 
 def run_scripts(impl, scripts, globs):
-    """-> list of (script, program, model result, (rc,out,err), class, detail)"""
+    """-> list of (script, program, model result, (rc,out,err), class, detail, plan)"""
     res = model_runs(scripts)
-    progs = []
+    progs, plans = [], []
     for s, g, r in zip(scripts, globs, res):
-        progs.append(None if "error" in r else gen_c09.render_script(s, r["free"][1], g))
+        p, pl = None, None
+        if "error" not in r and not r["free"][0].startswith("stuck"):
+            try:
+                p, pl = gen_c09.render_script(s, r["free"][1], g)
+            except gen_c09.RenderError:
+                p, pl = None, None
+        progs.append(p)
+        plans.append(pl)
     outs = common.pmap(lambda p: common.run_cb(impl, p) if p else (0, "", ""), progs)
     rows = []
-    for s, p, r, o in zip(scripts, progs, res, outs):
-        c, d = judge_script(r, o)
-        rows.append((s, p, r, o, c, d))
+    for s, p, r, o, pl in zip(scripts, progs, res, outs, plans):
+        if p:
+            note_error(o[0], o[2])
+        c, d = judge_script(r, o, pl)
+        rows.append((s, p, r, o, c, d, pl))
     return rows
 
 
@@ -168,7 +208,7 @@ def shrink_script(impl, script, glob, want):
 
 
 def report_script(rep, impl, row, glob, origin, fmap, stats, strict):
-    s, p, r, o, c, d = row
+    s, p, r, o, c, d, pl = row
     stats[c.split(":")[0] if not c.startswith("hole") else c] += 1
     if c == "ok" or c == "skip":
         return
@@ -192,13 +232,13 @@ def report_script(rep, impl, row, glob, origin, fmap, stats, strict):
     except Exception:
         pass
     row2 = run_scripts(impl, [small], [glob])[0]
-    s2, p2, r2, o2, c2, d2 = row2
-    es = gen_c09.expected_transcript(r2["spec"], r2["init"])
+    s2, p2, r2, o2, c2, d2, pl2 = row2
+    es = gen_c09.expected_transcript(r2["spec"], r2["init"], pl2)
     # the property's own oracle: a protected value changed / an attempt was not refused <=> main's transcript goes beyond spec's
     spec_fails = not (o2[1] == es[0] and (o2[0] != 0) == es[1])
     rep.violation("script", {"script": small, "globals": list(glob), "program": p2, "origin": origin, "why": d or d2,
                              "spec": {"outcome": r2["spec"][0], "stdout": es[0]},
-                             "mech": {"outcome": r2["mech"][0], "stdout": gen_c09.expected_transcript(r2["mech"], r2["init"])[0]},
+                             "mech": {"outcome": r2["mech"][0], "stdout": gen_c09.expected_transcript(r2["mech"], r2["init"], pl2)[0]},
                              "impl_rc": o2[0], "impl_stdout": o2[1], "impl_stderr": o2[2][-500:]},
                   "main disagrees with the const machine (%s; %s)" % (origin, d or d2), no_failing_input=not spec_fails)
 
@@ -225,6 +265,7 @@ def run(rep):
     lap("build")
     findings = load_findings()
     fmap = site_to_finding(findings)
+    ERRS.clear()
     stats = collections.Counter()
     evaluations = 0
     nontrivial = set()
@@ -252,7 +293,7 @@ def run(rep):
         report_script(rep, impl, row, (), "witness of check site " + st["name"], fmap, site_stats, strict=False)
         nontrivial.add(row[1])
         # which tests does THIS binary make? (the witness is refused <=> the test is there)
-        refused = row[3][0] == 1 and row[3][1] == gen_c09.expected_transcript(row[2]["spec"], row[2]["init"])[0]
+        refused = row[3][0] == 1 and row[3][1] == gen_c09.expected_transcript(row[2]["spec"], row[2]["init"], row[6])[0]
         if refused if row[4] != "mismatch" else st["chk"]:
             obs_chk.append(st["name"])
         if not st["eff"]:            # (whether an accepted s.m++ writes cannot be seen on a refused witness: keep the model's entry)
@@ -358,6 +399,81 @@ def run(rep):
     samples.append({"matrix_cell": "struct/memberst", "program": got[k0][1], "spec": "rejected", "main": got[k0][0]})
 
     lap("matrix")
+    # ---------------------------------------------------------------- derivation chains (object -> handle -> handle ... -> store)
+    depths = ["3", "3", "2"] if tier == "quick" else ["3", "4", "3"]
+    chains = []
+    for l in model_cmd_args(["chains"] + depths, []).split("\n"):
+        w = l.split("\t")
+        if w[0] == "CHAIN":
+            chains.append({"family": w[1], "name": w[2], "script": w[3], "spec": w[4][5:], "mech": w[5][5:], "expect": w[6][7:]})
+    cstat = collections.Counter()
+    cjobs = []
+    for c in chains:
+        if c["spec"] != c["expect"]:
+            rep.violation("chain", {"chain": c}, "chain %s %s: the extracted model says %s where the theorem says %s" % (c["family"], c["name"], c["spec"], c["expect"]), True)
+        why = gen_c09.chain_unsupported(c["family"], c["name"])
+        if why:
+            cstat["unsupported-construct: " + why] += 1
+            continue
+        for g in ((), (0,)):            # the object a local of main / a global
+            cjobs.append((c, g))
+    nviol = 0
+    for i in range(0, len(cjobs), CH_CHAINS):
+        part = cjobs[i:i + CH_CHAINS]
+        rows = run_scripts(impl, [c["script"] for c, _ in part], [g for _, g in part])
+        evaluations += len(rows)
+        for (c, g), row in zip(part, rows):
+            if c["expect"] == "rejected":
+                nontrivial.add(row[1])
+            before = len(rep.violations)
+            key = "%s:%s" % (c["family"], row[4].split(":")[0]) if not row[4].startswith("hole") else "%s:%s" % (c["family"], row[4])
+            if nviol < 8 or row[4] in ("ok", "skip") or row[4].startswith("hole"):
+                st_tmp = collections.Counter()
+                report_script(rep, impl, row, g, "derivation chain %s %s%s" % (c["family"], c["name"], " (global object)" if g else ""),
+                              fmap, st_tmp, strict=False)
+            cstat[key] += 1
+            nviol += len(rep.violations) - before
+    j = next((j for j, (c, g) in enumerate(cjobs) if c["name"] == "cscalar:Pc-Ln:a" and not g), 0)
+    if cjobs:
+        row = run_scripts(impl, [cjobs[j][0]["script"]], [cjobs[j][1]])[0]
+        samples.append({"chain": cjobs[j][0]["name"], "script": row[0], "program": row[1], "spec": row[2]["spec"][0], "mech": row[2]["mech"][0], "judgement": row[4]})
+
+    lap("chains")
+    # ---------------------------------------------------------------- cells outside the machine (tested only): const version + control twin
+    xstat = collections.Counter()
+    xmap = {}
+    for f in findings:
+        for x in f["signature"].get("extras", []):
+            xmap[x] = f
+    xcells = gen_c09.extra_cells()
+    xouts = common.pmap(lambda p: common.run_cb(impl, p), [p for _, c, t in xcells for p in (c, t)])
+    evaluations += len(xouts)
+    for k, (name, cp, tp) in enumerate(xcells):
+        (rc1, o1, e1), (rc0, o0, e0) = xouts[2 * k], xouts[2 * k + 1]
+        c1, c0 = gen_c09.classify(rc1, o1, e1), gen_c09.classify(rc0, o0, e0)
+        nontrivial.add(cp)
+        note_error(rc1, e1)
+        if c0 != "accepted-changed":
+            xstat["twin-mismatch"] += 1
+            rep.violation("extra-twin", {"cell": name, "program": tp, "expected": "changed", "observed": c0, "impl_stdout": o0, "impl_stderr": e0[-400:]},
+                          "control twin of cell %s (outside the machine) no longer runs and changes the value: %s" % (name, c0), True)
+        if c1 in ("rejected", "rejected-early") and "const" in e1.lower():
+            if name in xmap:
+                xstat["fixed"] += 1
+                rep.notes.append("cell %s is refused now (finding %s repaired?)" % (name, xmap[name]["id"]))
+            else:
+                xstat["refused"] += 1
+        elif name in xmap and c1 == "accepted-changed":
+            xstat["hole:" + name] += 1
+            rep.known(xmap[name]["id"], xmap[name]["what_fails"])
+        else:
+            xstat["mismatch"] += 1
+            rep.violation("extra", {"cell": name, "program": cp, "spec": "rejected", "observed": c1, "impl_rc": rc1, "impl_stdout": o1, "impl_stderr": e1[-400:]},
+                          "cell %s (outside the machine): the property demands rejected, main: %s" % (name, c1),
+                          no_failing_input=(c1 in ("rejected", "rejected-early", "accepted-unchanged", "late-error-unchanged")))
+    samples.append({"extra_cell": xcells[1][0], "program": xcells[1][1], "spec": "rejected"})
+
+    lap("extras")
     # ---------------------------------------------------------------- random scripts
     n_strict = 1500 if tier == "quick" else 20000
     n_free = 1200 if tier == "quick" else 15000
@@ -399,7 +515,7 @@ def run(rep):
     n_ref = 2500 if tier == "quick" else 30000
     progs, infos = [], []
     for k in range(n_ref):
-        sx, inf = gen_c09.ref_program(rng_for(seed, "c09-ref", k))
+        sx, inf = gen_c09.ref_program(rng_for(seed, "c09-ref", k), avoid_incdec=False)
         progs.append(sx)
         infos.append(inf)
     res, bad = [], []
@@ -446,16 +562,20 @@ def run(rep):
     rep.coverage.update({
         "evaluations": evaluations, "distinct_nontrivial": len(nontrivial),
         "rule": "programs run on main: 13x12 matrix templates (const + control twin), the same cells and one witness per check site rendered from "
-                "the Coq scripts, random machine scripts (strict stream avoiding the recorded holes, free stream), random CbCore programs around "
-                "const objects; non-trivial = distinct program text in which the property demands a rejection (a mutation of something protected is attempted)",
+                "the Coq scripts, every derivation chain (object local / global), template cells outside the machine (const + twin), random machine "
+                "scripts incl. callees (strict stream avoiding the recorded holes, free stream), random CbCore programs around const objects; "
+                "non-trivial = distinct program text in which the property demands a rejection (a mutation of something protected is attempted)",
         "exhaustive": True,
-        "exhaustive_part": "the object-kind x mutation-path matrix (13 x 12 = 156 cells; %d expressible) and the 31 check sites are enumerated completely; "
-                           "scripts and programs are sampled" % len(applicable),
+        "exhaustive_part": "the object-kind x mutation-path matrix (13 x 12 = 156 cells; %d expressible), the %d check sites and the derivation chains "
+                           "(references 1..%s links, array parameters 1..%s, pointers 1..%s; every link local/parameter x const/non-const, every final "
+                           "store form) are enumerated completely; scripts and programs are sampled" % (len(applicable), len(sites), depths[0], depths[1], depths[2]),
         "matrix": dict(mstat), "matrix_main_verdicts": table, "matrix_generic_rendering": dict(gen_stats),
         "check_sites": {"total": len(sites), "missing_in_implementation": holes, "witness_runs": dict(site_stats)},
+        "chains": dict(cstat), "chain_depths_ref_alias_ptr": depths, "extra_cells": dict(xstat),
         "scripts_strict": dict(sstat), "scripts_free": dict(fstat), "spec_rejecting_sites": dict(rejecting_sites),
+        "implementation_error_messages": dict(ERRS.most_common(60)),
         "ref_outcomes": dict(ref_out), "ref_const_rejections_by_form_and_place": dict(ref_att), "ref_disagreements": len(bad),
-        "input_distribution": {"matrix_templates": len(jobs), "matrix_generic": len(applicable), "site_witnesses": len(sites),
+        "input_distribution": {"matrix_templates": len(jobs), "matrix_generic": len(applicable), "site_witnesses": len(sites), "derivation_chains": len(cjobs), "extra_cells": 2 * len(xcells),
                                "scripts_strict": len(strict), "scripts_free": len(free), "ref_programs": len(progs),
                                "finding_replays": len(findings)},
         "samples": samples, "phase_wall_s": phase,
@@ -465,6 +585,10 @@ def run(rep):
         "Ref programs: operands of the mutation attempt are literals (the implementation tests the target before evaluating the right-hand side, Ref after); programs on which Ref reports undef are discarded",
         "machine scripts use int slots only; scalar types tiny..bool, globals and parameters are covered by the matrix templates",
         "a `T* const` variable passed to a `T*` parameter is rejected by the implementation (stricter than the property needs) and is not generated",
+        "`const T*` parameters: the implementation records no pointee const for them, so it refuses a `const T*` VARIABLE as their argument and `p = &c` in the callee (stricter than needed; not generated) and does not know `const S*` parameters at all (chains through them are counted as unsupported-construct)",
+        "`r.m = v` through a reference to a CONST struct is refused by the implementation only once the member entry has been read through some reference or pointer: scripts stay on the two histories the machine has (nothing read; read through this very reference), gen_c09.random_script `touched`",
+        "inside a callee only global objects and the callee's own handles are observed; elements of an array aliased by an array parameter are observed through the innermost parameter only (the implementation copies back on return)",
+        "r++ / r.m++ through a reference are not implemented by the interpreter (Type range error / Undefined struct variable) and `&r` crashes it: not in the machine",
     ]
 
 
@@ -475,8 +599,8 @@ def replay(path):
     if "script" in c:
         row = run_scripts(impl, [c["script"]], [tuple(c.get("globals", ()))])[0]
         print(row[1])
-        print("spec:", row[2]["spec"][0], repr(gen_c09.expected_transcript(row[2]["spec"], row[2]["init"])[0]))
-        print("mech:", row[2]["mech"][0], repr(gen_c09.expected_transcript(row[2]["mech"], row[2]["init"])[0]))
+        print("spec:", row[2]["spec"][0], repr(gen_c09.expected_transcript(row[2]["spec"], row[2]["init"], row[6])[0]))
+        print("mech:", row[2]["mech"][0], repr(gen_c09.expected_transcript(row[2]["mech"], row[2]["init"], row[6])[0]))
         print("main:", row[3][0], repr(row[3][1]), row[3][2][-300:])
         print("judgement:", row[4], row[5])
         return 0 if row[4] in ("ok",) or row[4].startswith("hole") else 1
